@@ -31,13 +31,14 @@ MRetryReq == WithReqs /\ UNCHANGED epochs /\ RetryReq
 MKaReq    == WithReqs /\ UNCHANGED epochs /\ KeepaliveReq
 MDown     == UNCHANGED epochs /\ \E r \in BOOLEAN : LinkDown(r)
 MReset    == UNCHANGED epochs /\ UsbReset
+MResetUp  == WithReqs /\ ResetUp /\ epochs' = epochs + 1
 MUp       == LinkUp /\ epochs' = epochs + 1
 MTxStart  == UNCHANGED epochs /\ TxStart
 MTxEnd    == UNCHANGED epochs /\ \E c \in Cmds, s \in 0..7 : TxEndFresh(c, s)
 MTxStale  == UNCHANGED epochs /\ TxEndStale
 MQuiet    == UNCHANGED epochs /\ Quiet
 
-MCNext == MHdr \/ MLrty \/ MConsume \/ MRetryReq \/ MKaReq \/ MDown \/ MReset \/ MUp
+MCNext == MHdr \/ MLrty \/ MConsume \/ MRetryReq \/ MKaReq \/ MDown \/ MReset \/ MResetUp \/ MUp
           \/ MTxStart \/ MTxEnd \/ MTxStale \/ MQuiet
 
 MCSpec == MCInit /\ [][MCNext]_mvars
